@@ -78,9 +78,35 @@ func init() {
 				k++
 				key := funcKey(c17Ranges, fd) + ":return#" + itoa(k)
 				last := unparen(rs.Results[len(rs.Results)-1])
+				// `err = aw.Close(); return …, err` / `closeErr := aw.Close(); return …, closeErr`: the returned
+				// identifier is assigned the writer's Close() by the statement right before the return
+				viaLocal := false
+				if id, ok := last.(*ast.Ident); ok && len(stack) >= 2 {
+					var list []ast.Stmt
+					switch b := stack[len(stack)-2].(type) {
+					case *ast.BlockStmt:
+						list = b.List
+					case *ast.CaseClause:
+						list = b.Body
+					}
+					for i, s := range list {
+						if ast.Node(s) != ast.Node(rs) || i == 0 {
+							continue
+						}
+						if as, ok := list[i-1].(*ast.AssignStmt); ok && len(as.Lhs) == len(as.Rhs) && (as.Tok == token.ASSIGN || as.Tok == token.DEFINE) {
+							for j, l := range as.Lhs {
+								if li, ok := l.(*ast.Ident); ok && info.ObjectOf(li) == info.ObjectOf(id) && isClose(as.Rhs[j]) {
+									viaLocal = true
+								}
+							}
+						}
+					}
+				}
 				switch {
 				case deferred:
 					c.OK("R17d", key, rs.Pos(), "the writer's Close is deferred")
+				case viaLocal:
+					c.OK("R17d", key, rs.Pos(), "returns the result of the writer's Close() called right before")
 				case isClose(last):
 					c.OK("R17d", key, rs.Pos(), "returns the writer's Close()")
 				default:
